@@ -380,6 +380,33 @@ let handle (req : sexp) : String.t =
          let ox = extend_lin o in
          let vals = List.map (fun e -> sem_eval_expr fops ox ss inp with_dt (fuel_for o) (expr_of e)) (lst es) in
          jobj ["status", jstr "ok"; "values", jlist (jopt jfloat) vals])
+  | L [A "ceval"; A with_dt; inp; es] ->
+      (* C meaning (typed constants, C99 integer division, fmod) and real meaning of C right-hand
+         sides, variables standing for the model's meaning of their names *)
+      let o = the_ode () in
+      (match sorted_states o with
+       | None -> jobj ["status", jstr "cycle"]
+       | Some ss ->
+         let inp = inputs_of inp in
+         let with_dt = (with_dt = "1") in
+         let ox = extend_lin o in
+         let rho x = (match sem_eval fops ox ss inp with_dt (fuel_for o) x with Some v -> v | None -> nan) in
+         let c_fmod a b = Float.rem a b in
+         let one e =
+           let e = expr_of e in
+           let cv = (match ceval fops float_of_z c_fmod rho e with CI z -> float_of_z z | CD d -> d) in
+           jobj ["c", jfloat cv; "real", jfloat (eval fops rho e); "safe", jbool (c_safe e); "int", jbool (is_int e)] in
+         jobj ["status", jstr "ok"; "values", jlist one (lst es)])
+  | L [A "cevalenv"; env; es] ->
+      (* the same with an explicit environment ((name value) ...) *)
+      let tbl = List.map (function L [A n; A v] -> (n, float_of_string v) | _ -> bad "env") (lst env) in
+      let rho x = (match List.assoc_opt (os x) tbl with Some v -> v | None -> nan) in
+      let c_fmod a b = Float.rem a b in
+      let one e =
+        let e = expr_of e in
+        let cv = (match ceval fops float_of_z c_fmod rho e with CI z -> float_of_z z | CD d -> d) in
+        jobj ["c", jfloat cv; "real", jfloat (eval fops rho e); "safe", jbool (c_safe e); "int", jbool (is_int e)] in
+      jobj ["status", jstr "ok"; "values", jlist one (lst es)]
   | L [A "evalclosed"; es] ->
       let vals = List.map (fun e -> eval fops (fun _ -> nan) (expr_of e)) (lst es) in
       jobj ["status", jstr "ok"; "values", jlist jfloat vals]
